@@ -246,6 +246,12 @@ class CatchHarness:
         o = self.obj
         uid = f"{CFILE}::CatchScheduler._wrap"
         action = Opaque("callback", "action")
+        if ctx.choose(2, "another CatchScheduler wrapped the same action before") == 1:
+            # the contract is per scheduler object: what another CatchScheduler (another handler) did with the same action callable
+            # earlier in the process changes nothing here
+            sibling = self.new_obj(it, Opaque("scheduler", "other_inner"), Opaque("callback", "other_handler"), "sib")
+            it.call(it.get_attr(sibling, "_wrap"), [action], {})
+            self.w.log.clear()
         W = it.call(it.get_attr(o, "_wrap"), [action], {})
         self.rec(ctx, uid + "/calls-nothing", not self.w.log)
         self.check_wrapped(it, ctx, uid, W, action)
